@@ -57,12 +57,15 @@ def branch_fails(case):
         else:
             t = bool(f(a, b))
         return t, (a * b if t else a - b).data
-    t_full, u_full = prog(x, y)
+    try:
+        t_full, u_full = prog(x, y)
+    except Exception:
+        return None            # operands that cannot be compared / combined: judged by C10, not a truncation question
     for Dp in range(1, D):
         t, u = prog(x[:Dp], y[:Dp])
         if t != t_full:
             return 'truncation-branch-%s: the comparison is %s with D=%d but %s with D\'=%d' % (case['cmp'], t_full, D, t, Dp)
-        if not close(u_full[:Dp], u, 1e-12):
+        if not np.array_equal(u_full[:Dp], u, equal_nan=True) and not close(u_full[:Dp], u, 1e-12):
             return 'truncation-branch-%s: the branch result differs in its first %d coefficients' % (case['cmp'], Dp)
     return None
 
@@ -97,6 +100,16 @@ def run(ctx):
         f = truncation_fails(case)
         if f:
             ctx.report(case, 'failure', f)
+    # operations whose code consults a threshold (rank / repeated-eigenvalue decisions): more cases, always with D >= 3, so that
+    # a decision that looks at coefficients which a shorter truncation drops is exercised on every run
+    for name in [n_ for n_ in names if n_.endswith(':eps') or n_.endswith(':closegap') or n_.endswith(':rankdef')]:
+        for k in range(12 if ctx.tier == 'quick' else 60):
+            case = ops.gen_case(ctx.rng, ctx.tier, name, D=ctx.rng.randint(3, 5))
+            ctx.evaluations += 1
+            ctx.count('threshold-op=' + name)
+            f = truncation_fails(case)
+            if f:
+                ctx.report(case, 'failure', f)
     # reverse sweep: low-order adjoint coefficients do not depend on the truncation degree
     for i in range(120 if ctx.tier == 'quick' else 1500):
         case = revchecks.make_case(ctx.rng, ctx.tier, D=ctx.rng.randint(2, 4 if ctx.tier == 'quick' else 6))
